@@ -106,11 +106,32 @@ impl MergedServerSelection {
 fn get_variables(
     arguments: &[ArgumentKeyAndValue],
 ) -> impl Iterator<Item = VariableNameWrapper> + '_ {
-    arguments.iter().flat_map(|arg| match arg.value {
-        isograph_lang_types::NonConstantValue::Variable(v) => Some(v),
-        // TODO handle variables in objects and lists
-        _ => None,
+    arguments.iter().flat_map(|arg| {
+        let mut variables = vec![];
+        collect_variables_in_value(&arg.value, &mut variables);
+        variables
     })
+}
+
+/// Variables can appear at any depth inside object and list values.
+fn collect_variables_in_value(
+    value: &isograph_lang_types::NonConstantValue,
+    variables: &mut Vec<VariableNameWrapper>,
+) {
+    match value {
+        isograph_lang_types::NonConstantValue::Variable(v) => variables.push(*v),
+        isograph_lang_types::NonConstantValue::Object(entries) => {
+            for entry in entries {
+                collect_variables_in_value(&entry.value.item, variables);
+            }
+        }
+        isograph_lang_types::NonConstantValue::List(items) => {
+            for item in items {
+                collect_variables_in_value(&item.item, variables);
+            }
+        }
+        _ => {}
+    }
 }
 
 #[derive(Clone, Eq, PartialEq, Ord, PartialOrd, Debug)]
